@@ -50,3 +50,22 @@ pub assume_specification[ str::to_uppercase ](s: &str) -> (r: String)
     ensures r@ == str_upper(s@);
 pub assume_specification[ str::to_lowercase ](s: &str) -> (r: String)
     ensures r@ == str_lower(s@);
+
+// HashMap<String, V> looked up with a `&str` key: the entry whose key has the same text
+pub broadcast axiom fn axiom_contains_str_key<V>(m: Map<String, V>, k: &str)
+    ensures #[trigger] vstd::std_specs::hash::contains_borrowed_key::<String, V, str>(m, k)
+        <==> exists|key: String| #![trigger m.dom().contains(key)] m.dom().contains(key) && key@ == k@;
+pub broadcast axiom fn axiom_maps_str_key_to_value<V>(m: Map<String, V>, k: &str, v: V)
+    ensures #[trigger] vstd::std_specs::hash::maps_borrowed_key_to_value::<String, V, str>(m, k, v)
+        <==> exists|key: String| #![trigger m.dom().contains(key)] m.dom().contains(key) && key@ == k@ && m[key] == v;
+pub assume_specification<'a, T: Copy>[ Option::<&'a T>::copied ](o: Option<&'a T>) -> (r: Option<T>)
+    ensures match o { Some(v) => r == Some(*v), None => r is None };
+pub assume_specification<'a>[ <String as From<&'a str>>::from ](s: &str) -> (r: String)
+    ensures r@ == s@;
+#[verifier::external_type_specification]
+#[verifier::external_body]
+pub struct ExFromUtf8Error(std::string::FromUtf8Error);
+// UTF-8 decoding of a byte sequence (None: not valid UTF-8)
+pub uninterp spec fn utf8(b: Seq<u8>) -> Option<Seq<char>>;
+pub assume_specification[ String::from_utf8 ](v: Vec<u8>) -> (r: Result<String, std::string::FromUtf8Error>)
+    ensures match r { Ok(s) => utf8(v@) == Some(s@), Err(_) => utf8(v@) is None };
